@@ -253,8 +253,90 @@ static void run_type(uint64_t seed)
     }
 }
 
+// ---------------------------------------------------------------- results consumed by scalar arithmetic in the same function
+// The value monitors above read every result back from memory and compare bit patterns, so the optimiser never sees what
+// is done with a lane.  A kernel that computes a lane with a *signed* scalar expression (x * y, x + y, -x on T) has undefined
+// behaviour exactly where the property demands wrap-around, and g++ -O2 uses that when the consumer is visible:
+// (x * 2) / 2 is simplified to x, (x + 1) < x to false.  Each probe is a small noinline function (operand from a volatile)
+// whose lane is consumed by such an expression; the expected value is computed from the wrapped lane in unsigned arithmetic.
+template <class T>
+struct Vis
+{
+    using B = xs::batch<T, ARCH>;
+    using U = typename std::make_unsigned<T>::type;
+    static T wrap(U u)
+    {
+        T t;
+        memcpy(&t, &u, sizeof t);
+        return t;
+    }
+    __attribute__((noinline)) static T half_of_double(T x) { return (T)((B(x) * B((T)2)).get(0) / 2); }
+    __attribute__((noinline)) static T half_of_fma(T x) { return (T)(xs::fma(B(x), B((T)2), B((T)0)).get(0) / 2); }
+    __attribute__((noinline)) static T half_of_sum(T x) { return (T)((B(x) + B(x)).get(0) / 2); }
+    __attribute__((noinline)) static int incr_is_smaller(T x) { return xs::incr(B(x)).get(B::size - 1) < x; }
+    __attribute__((noinline)) static int decr_is_larger(T x) { return xs::decr(B(x)).get(0) > x; }
+    __attribute__((noinline)) static int neg_is_negative(T x)
+    {
+        if (x >= 0)
+            return -1;
+        alignas(64) T o[B::size];
+        (-B(x)).store_aligned(o);
+        return o[B::size - 1] < 0;
+    }
+    __attribute__((noinline)) static int abs_is_negative(T x) { return xs::abs(B(x)).get(0) < 0; }
+    __attribute__((noinline)) static int product_is_negative(T x)
+    {
+        if (x <= 0)
+            return -1;
+        alignas(64) T o[B::size];
+        xs::mul(B(x), B((T)2)).store_aligned(o);
+        return o[B::size - 1] < 0;
+    }
+    __attribute__((noinline)) static int diff_is_positive(T x) { return (B(x) - B((T)1)).get(0) > 0; }
+    static void run()
+    {
+        const T top = std::numeric_limits<T>::max(), bot = std::numeric_limits<T>::min();
+        const T quarter = (T)((U)1 << (8 * sizeof(T) - 2)); // 2^(bits-2): doubling wraps to MIN
+        volatile T vq = quarter, vtop = top, vbot = bot;
+        auto chk = [](const char* op, long long got, long long exp, T x)
+        {
+            static std::map<std::string, OpStat*> cache;
+            OpStat*& sp = cache[std::string(op) + tname<T>()];
+            if (!sp)
+                sp = &reg("C01", op, tname<T>());
+            OpStat& st = *sp;
+            if (!st.on)
+                return;
+            st.evals++;
+            st.cell(0);
+            if (got != exp)
+                viol(st, std::string(op) == "abs_consumer_visible" ? "abs_of_type_MIN" : "unclassified", "{\"x\":\"" + hexv(x) + "\",\"got\":" + std::to_string(got) + ",\"expected_from_the_wrapped_lane\":" + std::to_string(exp) + "}");
+            else if (st.want_sample())
+                st.samples.push_back("{\"x\":\"" + hexv(x) + "\",\"value\":" + std::to_string(got) + "}");
+        };
+        for (int rep = 0; rep < 4; ++rep)
+        {
+            T q = vq, t = vtop, b = vbot;
+            mark_case("consumer_visible", tname<T>(), &q, sizeof q);
+            chk("mul_consumer_visible", half_of_double(q), (long long)(T)(wrap((U)((U)q * 2u)) / 2), q);
+            chk("fma_consumer_visible", half_of_fma(q), (long long)(T)(wrap((U)((U)q * 2u)) / 2), q);
+            chk("add_consumer_visible", half_of_sum(q), (long long)(T)(wrap((U)((U)q + (U)q)) / 2), q);
+            chk("incr_consumer_visible", incr_is_smaller(t), 1, t);
+            chk("decr_consumer_visible", decr_is_larger(b), 1, b);
+            chk("neg_consumer_visible", neg_is_negative(b), 1, b);
+            chk("abs_consumer_visible", abs_is_negative(b), 1, b);
+            chk("mul_consumer_visible", product_is_negative(q), 1, q);
+            chk("sub_consumer_visible", diff_is_positive(b), 1, b);
+        }
+    }
+};
+
 void vh::unit_main()
 {
+    Vis<int8_t>::run();
+    Vis<int16_t>::run();
+    Vis<int32_t>::run();
+    Vis<int64_t>::run();
     uint64_t s = ctx().seed;
     run_type<int8_t>(s);
     run_type<uint8_t>(s);
